@@ -18,6 +18,7 @@ BoolBoth == {TRUE, FALSE}
 OnlyOpt == {TRUE}
 Rows6 == {0, 1, 3, 6}
 Rows9 == {9}
+Rows6b == {0, 1, 3, 6, 9, 17}     \* 9 and 17: bit-packed level runs of two and three groups
 Rows3 == {3}
 PatsAll == {"none", "all", "first", "last", "alt"}
 PatsFew == {"none", "alt"}
@@ -38,6 +39,8 @@ FlagsAll == {"absent", "true", "false"}
 FlagAbsent == {"absent"}
 CreatorsBoth == {"other", "fastparquet-like"}
 CreatorOther == {"other"}
+StatsAbsent == {"absent"}
+StatsBoth == {"absent", "exact"}
 PadNone == {0}
 PadsSmall == {0, 126, 253}
 PadsEdges == {0, 126, 253, 32766, 65533}      \* used indices straddle 2^7, 2^8, 2^15, 2^16
@@ -47,7 +50,7 @@ Rows4 == {4}
 PageJson(p) == [a |-> p.a, b |-> p.b, v |-> p.v, enc |-> p.enc, def_runs |-> p.def_runs, index_runs |-> p.index_runs,
                 index_width |-> p.index_width, compressed |-> p.compressed]
 Export == pc = "done" => PrintT(ToJson([kind |-> col.kind.name, n |-> col.n, optional |-> col.optional, codec |-> col.codec,
-                                          creator |-> col.creator, nullpat |-> col.nullpat, valpat |-> col.valpat,
+                                          creator |-> col.creator, stats |-> col.stats, nullpat |-> col.nullpat, valpat |-> col.valpat,
                                           cells |-> Cells,
                                           rgs |-> [g \in DOMAIN rgs |-> [a |-> rgs[g].a, b |-> rgs[g].b, dict |-> rgs[g].dict,
                                                                           usedict |-> rgs[g].usedict, pad |-> rgs[g].pad,
